@@ -104,7 +104,7 @@ class List(Expression):
 
 
 class Axis(Expression):
-    def __init__(self, name, value, ellipsis_indices, begin_pos=None, end_pos=None):
+    def __init__(self, name, value, ellipsis_indices, begin_pos=None, end_pos=None, min_value=1):
         Expression.__init__(self, ellipsis_indices, begin_pos=begin_pos, end_pos=end_pos)
         if not isinstance(name, str):
             raise TypeError(f"Axis name must be a string, but got {type(name)}")
@@ -112,6 +112,7 @@ class Axis(Expression):
             raise TypeError(f"Axis value must be an int or None, but got {type(value)}")
         self.name = name
         self.value = int(value) if value is not None else None
+        self.min_value = min_value  # Smallest admissible length (larger than 1 only for axes that stand for a subexpression)
 
     def __str__(self):
         return self.name if self.value is None else str(self.value)
@@ -124,7 +125,9 @@ class Axis(Expression):
         yield self
 
     def __deepcopy__(self):
-        return Axis(self.name, self.value, ellipsis_indices=self.ellipsis_indices, begin_pos=self.begin_pos, end_pos=self.end_pos)
+        return Axis(
+            self.name, self.value, ellipsis_indices=self.ellipsis_indices, begin_pos=self.begin_pos, end_pos=self.end_pos, min_value=self.min_value
+        )
 
     def nodes(self):
         yield self
